@@ -63,6 +63,7 @@ type FuncSpec struct {
 	DisciplineProps  []string
 	Line             int
 	Retains          []RetainSpec // parameters whose referent the function keeps after it returns
+	LoopShapes       map[int][]*Clause // what the loop's invariants assume about the loop itself (counter start, ...): a failure means "contract out of step", not "violated"
 }
 
 type RetainSpec struct {
@@ -428,6 +429,21 @@ func ParseSpecFile(path string) (*SpecFile, error) {
 			}
 			// loop #k invariant L [props]: e
 			f := strings.Fields(rest)
+			if len(f) >= 3 && strings.HasPrefix(f[0], "#") && f[1] == "shape" {
+				k, err := strconv.Atoi(f[0][1:])
+				if err != nil {
+					return nil, fail("loop ordinal")
+				}
+				c, err := parseClause(strings.TrimSpace(rest[strings.Index(rest, "shape")+len("shape"):]), s.no)
+				if err != nil {
+					return nil, fail("%v", err)
+				}
+				if curFunc.LoopShapes == nil {
+					curFunc.LoopShapes = map[int][]*Clause{}
+				}
+				curFunc.LoopShapes[k] = append(curFunc.LoopShapes[k], c)
+				break
+			}
 			if len(f) < 3 || !strings.HasPrefix(f[0], "#") || f[1] != "invariant" {
 				return nil, fail("loop #k invariant L: e")
 			}
